@@ -378,4 +378,7 @@ def run(ck, tier):
     ck.rule('R15', 'whether a buffered complete frame is looked at does not depend on how its bytes arrived: the readiness test of the delimiter framers is monotone under appending (shared with C11 R11)')
     from .c11 import r11_readiness_is_monotone as _r11m
     ck.guard(_r11m, ck, cx, 'R15')
+    from ..share import import_findings as _imp6
+    ck.rule('R16', 'frames that share a read are all delivered: advanceFrame consumes exactly the frame that was handed on, not a byte more or less (shared with C03 R2)')
+    _imp6(ck, 'C03', 'R16', ('R2',), 'the frame queued behind a delivered one in the same read is cut and lost, while one frame per read delivers both', detail_prefixes=('getFrame-range', 'advance'))
     return cx.idx
